@@ -1,27 +1,88 @@
-(** M3 — invariant of the server lifecycle model and its consequences (C19). *)
+(** M3 — invariant of the server lifecycle model (with runs, overlapping restarts and the pool's
+    closing) and its consequences (C19). *)
 From TP Require Import SModel.
 
 Record Inv (s : srv) : Prop := {
   inv_nostart : v_started s = false ->
-                v_listening s = false /\ v_stopreq s = false /\ v_done s = false /\ v_conns s = [];
+                v_listening s = false /\ v_stopreq s = false /\ v_done s = false /\
+                v_conns s = [] /\ v_drain s = [] /\ v_gen s = 0;
   inv_serving : v_started s = true -> v_stopreq s = false ->
                 v_listening s = true /\ v_done s = false;
   inv_stopped : v_stopreq s = true -> v_listening s = false /\ v_started s = true;
-  inv_done_iff : v_stopreq s = true -> (v_done s = true <-> all_sessions_ended (v_conns s) = true);
+  inv_done_iff : v_stopreq s = true ->
+                 (v_done s = true <-> run_ended (v_gen s) (v_conns s) = true);
   inv_done_stop : v_done s = true -> v_stopreq s = true;
   inv_sock_gone : v_done s = true -> v_sockfile s = false;
-  inv_sock_there : v_kind s = Unix -> v_started s = true -> v_done s = false ->
-                   v_sockfile s = true;
+  inv_sock_there : v_overlap s = false -> v_kind s = Unix -> v_started s = true ->
+                   v_done s = false -> v_sockfile s = true;
   inv_sock_tcp : v_kind s = TCP -> v_sockfile s = false;
   inv_session_client : forall c k, nth_error (v_conns s) c = Some k -> k_session k = true ->
                        k_waiting k = false -> k_client_open k = true;
   inv_waiting_session : forall c k, nth_error (v_conns s) c = Some k -> k_waiting k = true ->
-                        k_session k = true
+                        k_session k = true;
+  inv_closed_nowait : v_pool_closed s = true ->
+                      forall c k, nth_error (v_conns s) c = Some k -> k_waiting k = false;
+  inv_gen_pos : v_started s = true -> 1 <= v_gen s;
+  inv_gen : forall c k, nth_error (v_conns s) c = Some k -> 1 <= k_gen k <= v_gen s;
+  inv_live_run : forall c k, nth_error (v_conns s) c = Some k -> k_session k = true ->
+                 k_gen k = v_gen s \/ In (k_gen k) (v_drain s);
+  inv_drain_old : forall g, In g (v_drain s) -> 1 <= g < v_gen s;
+  inv_drain_live : forall g, In g (v_drain s) -> run_ended g (v_conns s) = false;
+  inv_no_overlap : v_overlap s = false -> v_drain s = [] /\ v_raised s = false;
+  inv_raised : v_raised s = true -> v_kind s = Unix /\ v_done s = true
+}.
+
+(** what holds of a state whose connections have just changed, before the system settles: as
+    [Inv], except that a run may be over (no session of it left) while its task is not marked
+    completed yet *)
+Record WInv (s : srv) : Prop := {
+  w_nostart : v_started s = false ->
+              v_listening s = false /\ v_stopreq s = false /\ v_done s = false /\
+              v_conns s = [] /\ v_drain s = [] /\ v_gen s = 0;
+  w_serving : v_started s = true -> v_stopreq s = false ->
+              v_listening s = true /\ v_done s = false;
+  w_stopped : v_stopreq s = true -> v_listening s = false /\ v_started s = true;
+  w_done : v_done s = true -> v_stopreq s = true /\ run_ended (v_gen s) (v_conns s) = true;
+  w_sock_gone : v_done s = true -> v_sockfile s = false;
+  w_sock_there : v_overlap s = false -> v_kind s = Unix -> v_started s = true ->
+                 v_done s = false -> v_sockfile s = true;
+  w_sock_tcp : v_kind s = TCP -> v_sockfile s = false;
+  w_session_client : forall c k, nth_error (v_conns s) c = Some k -> k_session k = true ->
+                     k_waiting k = false -> k_client_open k = true;
+  w_waiting_session : forall c k, nth_error (v_conns s) c = Some k -> k_waiting k = true ->
+                      k_session k = true;
+  w_closed_nowait : v_pool_closed s = true ->
+                    forall c k, nth_error (v_conns s) c = Some k -> k_waiting k = false;
+  w_gen_pos : v_started s = true -> 1 <= v_gen s;
+  w_gen : forall c k, nth_error (v_conns s) c = Some k -> 1 <= k_gen k <= v_gen s;
+  w_live_run : forall c k, nth_error (v_conns s) c = Some k -> k_session k = true ->
+               k_gen k = v_gen s \/ In (k_gen k) (v_drain s);
+  w_drain_old : forall g, In g (v_drain s) -> 1 <= g < v_gen s;
+  w_no_overlap : v_overlap s = false -> v_drain s = [] /\ v_raised s = false;
+  w_raised : v_raised s = true -> v_kind s = Unix /\ v_done s = true
 }.
 
 Lemma Inv_init k : Inv (init k).
 Proof.
-  constructor; cbn; intros; try discriminate; auto; try (destruct c; discriminate).
+  constructor; cbn.
+  - intros _. repeat split; reflexivity.
+  - intros H; discriminate.
+  - intros H; discriminate.
+  - intros H; discriminate.
+  - intros H; discriminate.
+  - intros H; discriminate.
+  - intros _ _ H; discriminate.
+  - intros _. reflexivity.
+  - intros c x H. destruct c; discriminate.
+  - intros c x H. destruct c; discriminate.
+  - intros H; discriminate.
+  - intros H; discriminate.
+  - intros c x H. destruct c; discriminate.
+  - intros c x H. destruct c; discriminate.
+  - intros g [].
+  - intros g [].
+  - intros _. split; reflexivity.
+  - intros H; discriminate.
 Qed.
 
 Lemma nth_error_upd {A} (l : list A) n m x :
@@ -33,63 +94,407 @@ Proof.
   - rewrite IH. destruct (Nat.eqb n m); auto.
 Qed.
 
-Lemma settle_fields s :
-  v_kind (settle s) = v_kind s /\ v_started (settle s) = v_started s /\
-  v_conns (settle s) = v_conns s /\ v_refused (settle s) = v_refused s /\
-  v_stopreq (settle s) = v_stopreq s.
-Proof.
-  unfold settle.
-  destruct (v_stopreq s && negb (v_done s) && all_sessions_ended (v_conns s)) eqn:E; cbn; auto.
-  apply andb_true_iff in E. destruct E as [E _]. apply andb_true_iff in E. destruct E as [E _].
-  rewrite E. auto 6.
-Qed.
+Lemma upd_length {A} (l : list A) n x : length (upd l n x) = length l.
+Proof. revert n. induction l as [|h t IH]; intros [|n]; cbn; auto. Qed.
 
-(** [settle] re-establishes "done iff no session left" after a change of the connections,
-    provided the server cannot be done already while a session is left *)
-Lemma Inv_settle s :
-  (v_started s = false ->
-   v_listening s = false /\ v_stopreq s = false /\ v_done s = false /\ v_conns s = []) ->
-  (v_started s = true -> v_stopreq s = false -> v_listening s = true /\ v_done s = false) ->
-  (v_stopreq s = true -> v_listening s = false /\ v_started s = true) ->
-  (v_done s = true -> v_stopreq s = true /\ all_sessions_ended (v_conns s) = true) ->
-  (v_done s = true -> v_sockfile s = false) ->
-  (v_kind s = Unix -> v_started s = true -> v_done s = false -> v_sockfile s = true) ->
-  (v_kind s = TCP -> v_sockfile s = false) ->
-  (forall c k, nth_error (v_conns s) c = Some k -> k_session k = true -> k_waiting k = false ->
-               k_client_open k = true) ->
-  (forall c k, nth_error (v_conns s) c = Some k -> k_waiting k = true -> k_session k = true) ->
-  Inv (settle s).
-Proof.
-  intros H1 H2 H3 H4 H5 H6 H7 H8 H9. unfold settle.
-  destruct (v_stopreq s && negb (v_done s) && all_sessions_ended (v_conns s)) eqn:E.
-  - apply andb_true_iff in E. destruct E as [E Ha].
-    apply andb_true_iff in E. destruct E as [Hs Hd]. apply negb_true_iff in Hd.
-    destruct (H3 Hs) as [Hl Hst].
-    constructor; cbn; intros; auto; try congruence.
-    + split; auto.
-    + eapply H8; eauto.
-    + eapply H9; eauto.
-  - constructor; auto.
-    + intros Hs. split; [intros Hd; apply H4; exact Hd|].
-      intros Ha. rewrite Hs, Ha in E. destruct (v_done s); [reflexivity|discriminate].
-    + intros Hd. apply H4. exact Hd.
-Qed.
+(* case analysis on a boolean of the goal only (hypotheses are left untouched) *)
+Ltac dcase t H := let bb := fresh "bb" in remember t as bb eqn:H; destruct bb; symmetry in H.
+
+(** * runs and their sessions *)
 
 Lemma all_ended_app cs k :
   all_sessions_ended (cs ++ [k]) = all_sessions_ended cs && negb (k_session k).
 Proof. unfold all_sessions_ended. rewrite forallb_app. cbn. rewrite andb_true_r. reflexivity. Qed.
 
-(* case analysis on a boolean of the goal only (hypotheses are left untouched) *)
-Ltac dcase t H := let bb := fresh "bb" in remember t as bb eqn:H; destruct bb; symmetry in H.
+Lemma run_ended_app g cs k :
+  run_ended g (cs ++ [k]) = run_ended g cs && negb (k_session k && Nat.eqb (k_gen k) g).
+Proof. unfold run_ended. rewrite forallb_app. cbn. rewrite andb_true_r. reflexivity. Qed.
 
-Lemma live_session_not_done s c k :
-  Inv s -> nth_error (v_conns s) c = Some k -> k_session k = true -> v_done s = false.
+(** a live session keeps its run going *)
+Lemma run_ended_live cs c k g :
+  nth_error cs c = Some k -> k_session k = true -> k_gen k = g -> run_ended g cs = false.
 Proof.
-  intros I Hk Hse. apply Bool.not_true_is_false. intros E.
-  pose proof (inv_done_stop _ I E) as Hs. apply (inv_done_iff _ I Hs) in E.
-  unfold all_sessions_ended in E. rewrite forallb_forall in E.
-  apply nth_error_In in Hk. apply E in Hk. rewrite Hse in Hk. discriminate.
+  intros Hk Hs Hg. apply Bool.not_true_is_false. intros E. unfold run_ended in E.
+  rewrite forallb_forall in E. apply nth_error_In in Hk. apply E in Hk.
+  rewrite Hs, Hg, Nat.eqb_refl in Hk. discriminate.
 Qed.
+
+Lemma run_ended_no_live cs g :
+  (forall c k, nth_error cs c = Some k -> k_session k = true -> k_gen k <> g) ->
+  run_ended g cs = true.
+Proof.
+  intros H. unfold run_ended. apply forallb_forall. intros x Hx.
+  apply In_nth_error in Hx. destruct Hx as [c Hc].
+  destruct (k_session x) eqn:Hs; [|reflexivity]. cbn.
+  apply negb_true_iff. apply Nat.eqb_neq. eapply H; eauto.
+Qed.
+
+Lemma run_ended_nth cs g c k :
+  run_ended g cs = true -> nth_error cs c = Some k -> k_session k = true -> k_gen k <> g.
+Proof.
+  intros E Hk Hs Hg. rewrite (run_ended_live cs c k g Hk Hs Hg) in E. discriminate.
+Qed.
+
+Lemma all_ended_run_ended cs g : all_sessions_ended cs = true -> run_ended g cs = true.
+Proof.
+  intros E. apply run_ended_no_live. intros c k Hk Hs. exfalso.
+  unfold all_sessions_ended in E. rewrite forallb_forall in E.
+  apply nth_error_In in Hk. apply E in Hk. rewrite Hs in Hk. discriminate.
+Qed.
+
+(** every live session belongs to run g: then "run g is over" = "every session is over" *)
+Lemma run_ended_all_ended cs g :
+  (forall c k, nth_error cs c = Some k -> k_session k = true -> k_gen k = g) ->
+  run_ended g cs = all_sessions_ended cs.
+Proof.
+  intros H. destruct (all_sessions_ended cs) eqn:E.
+  - apply all_ended_run_ended. exact E.
+  - apply Bool.not_true_is_false. intros R. apply Bool.not_true_iff_false in E. apply E.
+    unfold all_sessions_ended. apply forallb_forall. intros x Hx.
+    apply In_nth_error in Hx. destruct Hx as [c Hc].
+    destruct (k_session x) eqn:Hs; [|reflexivity]. exfalso.
+    exact (run_ended_nth cs g c x R Hc Hs (H c x Hc Hs)).
+Qed.
+
+Lemma filter_length_le' {A} (f : A -> bool) l : length (filter f l) <= length l.
+Proof. induction l as [|a t IH]; cbn; [lia|]. destruct (f a); cbn; lia. Qed.
+
+Lemma filter_length_eq {A} (f : A -> bool) l : length (filter f l) = length l -> filter f l = l.
+Proof.
+  induction l as [|a t IH]; cbn; [reflexivity|]. destruct (f a); cbn; intros H.
+  - f_equal. apply IH. lia.
+  - pose proof (filter_length_le' f t). lia.
+Qed.
+
+(** * how the connections may change in one step *)
+
+(** the new record k' of a connection whose record was k ([closed]: the pool is closed now) *)
+Definition conn_evolves (closed : bool) (k k' : conn) : Prop :=
+  k_gen k' = k_gen k /\
+  (k_session k' = true -> k_session k = true) /\
+  (k_session k' = true -> k_waiting k' = false -> k_client_open k' = true) /\
+  (k_waiting k' = true -> k_session k' = true) /\
+  (closed = true -> k_waiting k' = false).
+
+Definition evolves (closed : bool) (cs cs' : list conn) : Prop :=
+  forall c k', nth_error cs' c = Some k' ->
+  exists k, nth_error cs c = Some k /\ conn_evolves closed k k'.
+
+Lemma run_ended_evolves b cs cs' g :
+  evolves b cs cs' -> run_ended g cs = true -> run_ended g cs' = true.
+Proof.
+  intros Ev E. apply run_ended_no_live. intros c k' Hk' Hs.
+  destruct (Ev c k' Hk') as (k & Hk & Hg & Hse & _). rewrite Hg.
+  exact (run_ended_nth cs g c k E Hk (Hse Hs)).
+Qed.
+
+Lemma conn_evolves_refl s c k :
+  Inv s -> nth_error (v_conns s) c = Some k -> conn_evolves (v_pool_closed s) k k.
+Proof.
+  intros I Hk. repeat split; auto.
+  - intros Hs Hw. exact (inv_session_client _ I c k Hk Hs Hw).
+  - intros Hw. exact (inv_waiting_session _ I c k Hk Hw).
+  - intros Hc. exact (inv_closed_nowait _ I Hc c k Hk).
+Qed.
+
+Lemma evolves_upd b cs c k k' :
+  (forall n x, nth_error cs n = Some x -> conn_evolves b x x) ->
+  nth_error cs c = Some k -> conn_evolves b k k' -> evolves b cs (upd cs c k').
+Proof.
+  intros Hrefl Hk Hkk' n x Hx. rewrite nth_error_upd in Hx.
+  destruct (Nat.eqb_spec c n) as [->|Hne].
+  - destruct (Nat.ltb n (length cs)); [|discriminate]. injection Hx as <-.
+    exists k. split; assumption.
+  - exists x. split; [exact Hx|]. eapply Hrefl; eauto.
+Qed.
+
+Lemma evolves_map b cs f :
+  (forall n x, nth_error cs n = Some x -> conn_evolves b x (f x)) -> evolves b cs (map f cs).
+Proof.
+  intros H n x Hx. rewrite nth_error_map in Hx.
+  destruct (nth_error cs n) as [y|] eqn:Hy; cbn in Hx; [|discriminate].
+  injection Hx as <-. exists y. split; [reflexivity|]. eapply H; eauto.
+Qed.
+
+(** a state that differs from an invariant one in its connections (and the pool's flag, and the
+    refusals' count) only *)
+Lemma WInv_evolve s s' :
+  Inv s ->
+  v_kind s' = v_kind s -> v_started s' = v_started s -> v_listening s' = v_listening s ->
+  v_stopreq s' = v_stopreq s -> v_done s' = v_done s -> v_sockfile s' = v_sockfile s ->
+  v_gen s' = v_gen s -> v_drain s' = v_drain s -> v_overlap s' = v_overlap s ->
+  v_raised s' = v_raised s ->
+  evolves (v_pool_closed s') (v_conns s) (v_conns s') ->
+  WInv s'.
+Proof.
+  intros I Ek Est El Esr Ed Esf Eg Edr Eo Er Ev.
+  constructor; rewrite ?Ek, ?Est, ?El, ?Esr, ?Ed, ?Esf, ?Eg, ?Edr, ?Eo, ?Er.
+  - intros H. destruct (inv_nostart _ I H) as (Ha & Hb & Hc & Hd & He & Hf).
+    repeat split; auto.
+    destruct (v_conns s') as [|k' t] eqn:E; [reflexivity|].
+    destruct (Ev 0 k') as (k & Hk & _); [try rewrite E; reflexivity|].
+    rewrite Hd in Hk. discriminate.
+  - exact (inv_serving _ I).
+  - exact (inv_stopped _ I).
+  - intros H. pose proof (inv_done_stop _ I H) as Hs. split; [exact Hs|].
+    eapply run_ended_evolves; [exact Ev|]. apply (inv_done_iff _ I Hs). exact H.
+  - exact (inv_sock_gone _ I).
+  - exact (inv_sock_there _ I).
+  - exact (inv_sock_tcp _ I).
+  - intros c k' Hk' Hs Hw. destruct (Ev c k' Hk') as (k & Hk & _ & _ & R & _). auto.
+  - intros c k' Hk' Hw. destruct (Ev c k' Hk') as (k & Hk & _ & _ & _ & R & _). auto.
+  - intros Hc c k' Hk'. destruct (Ev c k' Hk') as (k & Hk & _ & _ & _ & _ & R). auto.
+  - exact (inv_gen_pos _ I).
+  - intros c k' Hk'. destruct (Ev c k' Hk') as (k & Hk & Hg & _). rewrite Hg.
+    exact (inv_gen _ I c k Hk).
+  - intros c k' Hk' Hs. destruct (Ev c k' Hk') as (k & Hk & Hg & Hse & _). rewrite Hg.
+    exact (inv_live_run _ I c k Hk (Hse Hs)).
+  - exact (inv_drain_old _ I).
+  - exact (inv_no_overlap _ I).
+  - exact (inv_raised _ I).
+Qed.
+
+(** * settling *)
+
+Lemma settle_old_fields s :
+  v_kind (settle_old s) = v_kind s /\ v_started (settle_old s) = v_started s /\
+  v_listening (settle_old s) = v_listening s /\ v_stopreq (settle_old s) = v_stopreq s /\
+  v_done (settle_old s) = v_done s /\ v_conns (settle_old s) = v_conns s /\
+  v_refused (settle_old s) = v_refused s /\ v_gen (settle_old s) = v_gen s /\
+  v_overlap (settle_old s) = v_overlap s /\ v_raised (settle_old s) = v_raised s /\
+  v_pool_closed (settle_old s) = v_pool_closed s.
+Proof. cbn. repeat split; reflexivity. Qed.
+
+Lemma settle_old_drain s :
+  v_drain (settle_old s) = filter (fun g => negb (run_ended g (v_conns s))) (v_drain s).
+Proof. reflexivity. Qed.
+
+(** the earlier runs' stage changes nothing if no earlier run is draining *)
+Lemma settle_old_nodrain s : v_drain s = [] -> settle_old s = set_conns s (v_conns s).
+Proof. intros H. unfold settle_old, set_conns. rewrite H. cbn. reflexivity. Qed.
+
+Lemma settle_cur_fields s :
+  v_kind (settle_cur s) = v_kind s /\ v_started (settle_cur s) = v_started s /\
+  v_conns (settle_cur s) = v_conns s /\ v_refused (settle_cur s) = v_refused s /\
+  v_stopreq (settle_cur s) = v_stopreq s /\ v_gen (settle_cur s) = v_gen s /\
+  v_drain (settle_cur s) = v_drain s /\ v_overlap (settle_cur s) = v_overlap s /\
+  v_pool_closed (settle_cur s) = v_pool_closed s.
+Proof.
+  unfold settle_cur.
+  destruct (v_stopreq s && negb (v_done s) && run_ended (v_gen s) (v_conns s)) eqn:E; cbn;
+    [|repeat split; reflexivity].
+  apply andb_true_iff in E. destruct E as [E _]. apply andb_true_iff in E. destruct E as [E _].
+  rewrite E. repeat split; reflexivity.
+Qed.
+
+Lemma settle_fields s :
+  v_kind (settle s) = v_kind s /\ v_started (settle s) = v_started s /\
+  v_conns (settle s) = v_conns s /\ v_refused (settle s) = v_refused s /\
+  v_stopreq (settle s) = v_stopreq s /\ v_gen (settle s) = v_gen s /\
+  v_overlap (settle s) = v_overlap s /\ v_pool_closed (settle s) = v_pool_closed s.
+Proof.
+  unfold settle.
+  destruct (settle_cur_fields (settle_old s)) as (H1 & H2 & H3 & H4 & H5 & H6 & _ & H8 & H9).
+  rewrite H1, H2, H3, H4, H5, H6, H8, H9. cbn. repeat split; reflexivity.
+Qed.
+
+Lemma settle_conns s : v_conns (settle s) = v_conns s.
+Proof. apply (settle_fields s). Qed.
+
+Lemma settle_kind s : v_kind (settle s) = v_kind s.
+Proof. apply (settle_fields s). Qed.
+
+Lemma settle_stopreq s : v_stopreq (settle s) = v_stopreq s.
+Proof. apply (settle_fields s). Qed.
+
+(** before a stop request (and with no earlier run draining) settling changes nothing that can be
+    observed *)
+Lemma settle_cur_nostop s : v_stopreq s = false -> settle_cur s = s.
+Proof. intros H. unfold settle_cur. rewrite H. reflexivity. Qed.
+
+(** first stage: the earlier runs that are over leave [v_drain] *)
+Lemma WInv_settle_old s :
+  WInv s ->
+  WInv (settle_old s) /\
+  (forall g, In g (v_drain (settle_old s)) -> run_ended g (v_conns (settle_old s)) = false).
+Proof.
+  intros W. split.
+  - constructor; cbn.
+    + intros H. destruct (w_nostart _ W H) as (Ha & Hb & Hc & Hd & He & Hf).
+      rewrite He. cbn. repeat split; assumption.
+    + exact (w_serving _ W).
+    + exact (w_stopped _ W).
+    + exact (w_done _ W).
+    + intros H. destruct (Nat.eqb _ _); [exact (w_sock_gone _ W H)|reflexivity].
+    + intros Ho Hk Hst Hd. destruct (w_no_overlap _ W Ho) as [He _]. rewrite He. cbn.
+      exact (w_sock_there _ W Ho Hk Hst Hd).
+    + intros H. destruct (Nat.eqb _ _); [exact (w_sock_tcp _ W H)|reflexivity].
+    + exact (w_session_client _ W).
+    + exact (w_waiting_session _ W).
+    + exact (w_closed_nowait _ W).
+    + exact (w_gen_pos _ W).
+    + exact (w_gen _ W).
+    + intros c k Hk Hs. destruct (w_live_run _ W c k Hk Hs) as [Hg|Hg]; [left; exact Hg|].
+      right. apply filter_In. split; [exact Hg|].
+      rewrite (run_ended_live _ c k (k_gen k) Hk Hs eq_refl). reflexivity.
+    + intros g Hg. apply filter_In in Hg. destruct Hg as [Hg _]. exact (w_drain_old _ W g Hg).
+    + intros Ho. destruct (w_no_overlap _ W Ho) as [He Hr]. rewrite He. cbn. split; auto.
+    + exact (w_raised _ W).
+  - cbn. intros g Hg. apply filter_In in Hg. destruct Hg as [_ Hg].
+    apply negb_true_iff in Hg. exact Hg.
+Qed.
+
+(** second stage: the latest run's task completes if it was cancelled and its run is over *)
+Lemma Inv_settle_cur s :
+  WInv s -> (forall g, In g (v_drain s) -> run_ended g (v_conns s) = false) ->
+  Inv (settle_cur s).
+Proof.
+  intros W DL. unfold settle_cur.
+  destruct (v_stopreq s && negb (v_done s) && run_ended (v_gen s) (v_conns s)) eqn:E.
+  - apply andb_true_iff in E. destruct E as [E Ha].
+    apply andb_true_iff in E. destruct E as [Hs Hd]. apply negb_true_iff in Hd.
+    destruct (w_stopped _ W Hs) as [Hl Hst].
+    constructor; cbn.
+    + intros H. congruence.
+    + intros _ H. discriminate.
+    + intros _. split; [reflexivity|exact Hst].
+    + intros _. split; intros _; [exact Ha|reflexivity].
+    + intros _. reflexivity.
+    + intros _. reflexivity.
+    + intros _ _ _ H. discriminate.
+    + intros _. reflexivity.
+    + exact (w_session_client _ W).
+    + exact (w_waiting_session _ W).
+    + exact (w_closed_nowait _ W).
+    + exact (w_gen_pos _ W).
+    + exact (w_gen _ W).
+    + exact (w_live_run _ W).
+    + exact (w_drain_old _ W).
+    + exact DL.
+    + intros Ho. destruct (w_no_overlap _ W Ho) as [He _]. split; [exact He|].
+      unfold is_unix. destruct (v_kind s) eqn:Hk; [reflexivity|].
+      rewrite (w_sock_there _ W Ho Hk Hst Hd). reflexivity.
+    + intros H. split; [|reflexivity]. unfold is_unix in H.
+      destruct (v_kind s); [discriminate|reflexivity].
+  - constructor.
+    + exact (w_nostart _ W).
+    + exact (w_serving _ W).
+    + exact (w_stopped _ W).
+    + intros Hs. split; [intros Hd; apply (w_done _ W Hd)|].
+      intros Ha. rewrite Hs, Ha in E. destruct (v_done s); [reflexivity|discriminate].
+    + intros Hd. apply (w_done _ W Hd).
+    + exact (w_sock_gone _ W).
+    + exact (w_sock_there _ W).
+    + exact (w_sock_tcp _ W).
+    + exact (w_session_client _ W).
+    + exact (w_waiting_session _ W).
+    + exact (w_closed_nowait _ W).
+    + exact (w_gen_pos _ W).
+    + exact (w_gen _ W).
+    + exact (w_live_run _ W).
+    + exact (w_drain_old _ W).
+    + exact DL.
+    + exact (w_no_overlap _ W).
+    + exact (w_raised _ W).
+Qed.
+
+(** [settle] re-establishes "a cancelled task is done iff no session of its run is left" - for
+    the latest run and the earlier ones - after a change of the connections *)
+Lemma Inv_settle s : WInv s -> Inv (settle s).
+Proof.
+  intros W. unfold settle. destruct (WInv_settle_old s W) as [W1 DL].
+  apply Inv_settle_cur; assumption.
+Qed.
+
+(** without settling: nothing to settle *)
+Lemma Inv_of_WInv s :
+  WInv s -> (forall g, In g (v_drain s) -> run_ended g (v_conns s) = false) ->
+  (v_stopreq s = true -> run_ended (v_gen s) (v_conns s) = true -> v_done s = true) ->
+  Inv s.
+Proof.
+  intros W DL Hdone. constructor.
+  - exact (w_nostart _ W).
+  - exact (w_serving _ W).
+  - exact (w_stopped _ W).
+  - intros Hs. split; [intros Hd; apply (w_done _ W Hd)|exact (Hdone Hs)].
+  - intros Hd. apply (w_done _ W Hd).
+  - exact (w_sock_gone _ W).
+  - exact (w_sock_there _ W).
+  - exact (w_sock_tcp _ W).
+  - exact (w_session_client _ W).
+  - exact (w_waiting_session _ W).
+  - exact (w_closed_nowait _ W).
+  - exact (w_gen_pos _ W).
+  - exact (w_gen _ W).
+  - exact (w_live_run _ W).
+  - exact (w_drain_old _ W).
+  - exact DL.
+  - exact (w_no_overlap _ W).
+  - exact (w_raised _ W).
+Qed.
+
+(** * consequences of the invariant *)
+
+(** the latest task cannot be done while a session of its run lives *)
+Lemma live_session_not_done s c k :
+  Inv s -> nth_error (v_conns s) c = Some k -> k_session k = true -> k_gen k = v_gen s ->
+  v_done s = false.
+Proof.
+  intros I Hk Hse Hg. apply Bool.not_true_is_false. intros E.
+  pose proof (inv_done_stop _ I E) as Hs. apply (inv_done_iff _ I Hs) in E.
+  rewrite (run_ended_live _ c k _ Hk Hse Hg) in E. discriminate.
+Qed.
+
+(** without an overlap every live session belongs to the latest run ... *)
+Lemma no_overlap_live_gen s c k :
+  Inv s -> v_overlap s = false -> nth_error (v_conns s) c = Some k -> k_session k = true ->
+  k_gen k = v_gen s.
+Proof.
+  intros I Ho Hk Hs. destruct (inv_live_run _ I c k Hk Hs) as [H|H]; [exact H|].
+  destruct (inv_no_overlap _ I Ho) as [Hd _]. rewrite Hd in H. destruct H.
+Qed.
+
+(** ... hence the latest run is over iff every session is over *)
+Lemma no_overlap_run_ended s :
+  Inv s -> v_overlap s = false ->
+  run_ended (v_gen s) (v_conns s) = all_sessions_ended (v_conns s).
+Proof.
+  intros I Ho. apply run_ended_all_ended. intros c k Hk Hs.
+  exact (no_overlap_live_gen s c k I Ho Hk Hs).
+Qed.
+
+(** no session left at all: every run is over *)
+Lemma all_ended_no_drain s :
+  Inv s -> all_sessions_ended (v_conns s) = true ->
+  v_drain s = [] /\ (v_stopreq s = true -> v_done s = true).
+Proof.
+  intros I E. split.
+  - destruct (v_drain s) as [|g t] eqn:Hd; [reflexivity|]. exfalso.
+    assert (Hin : In g (v_drain s)) by (rewrite Hd; left; reflexivity).
+    pose proof (inv_drain_live _ I g Hin) as Hl.
+    rewrite (all_ended_run_ended _ g E) in Hl. discriminate.
+  - intros Hs. apply (inv_done_iff _ I Hs). apply all_ended_run_ended. exact E.
+Qed.
+
+(** listening: started, not cancelled, not done *)
+Lemma listening_serving s :
+  Inv s -> v_listening s = true ->
+  v_started s = true /\ v_stopreq s = false /\ v_done s = false.
+Proof.
+  intros I Hl.
+  assert (Hns : v_stopreq s = false).
+  { destruct (v_stopreq s) eqn:E; [|reflexivity].
+    destruct (inv_stopped _ I E) as [H _]. congruence. }
+  assert (Hst : v_started s = true).
+  { destruct (v_started s) eqn:E; [reflexivity|].
+    destruct (inv_nostart _ I E) as [H _]. congruence. }
+  destruct (inv_serving _ I Hst Hns) as [_ Hd]. auto.
+Qed.
+
+Lemma accepting_listening s : accepting s = true -> v_listening s = true.
+Proof. unfold accepting. intros H. apply andb_true_iff in H. apply H. Qed.
+
+(** * the steps *)
 
 (* a fact about the connection at index c0 of [upd l c x]: about x itself, or from the old list *)
 Ltac upd_case H :=
@@ -114,150 +519,247 @@ Ltac app_case H :=
      injection H as <-; cbn in *; try reflexivity; try discriminate; try congruence]
   end.
 
+Lemma Inv_refuse s : Inv s -> Inv (refuse s).
+Proof.
+  intros [I1 I2 I3 I4 I5 I6 I7 I8 I9 I10 I11 I12 I13 I14 I15 I16 I17 I18].
+  constructor; cbn; assumption.
+Qed.
+
+(** a connection is accepted: it belongs to the latest run *)
+Lemma Inv_accept s o se r h :
+  Inv s -> accepting s = true -> (se = true -> o = true) ->
+  Inv (set_conns s (v_conns s ++ [new_conn s o se r h])).
+Proof.
+  intros I Ha Hso. pose proof (accepting_listening s Ha) as Hl.
+  destruct (listening_serving s I Hl) as (Hst & Hns & Hd).
+  constructor; cbn.
+  - intros H. congruence.
+  - exact (inv_serving _ I).
+  - exact (inv_stopped _ I).
+  - intros H. congruence.
+  - intros H. congruence.
+  - intros H. congruence.
+  - exact (inv_sock_there _ I).
+  - exact (inv_sock_tcp _ I).
+  - intros c k Hk Hs Hw. pose proof (inv_session_client _ I) as P. app_case Hk. auto.
+  - intros c k Hk Hw. pose proof (inv_waiting_session _ I) as P. app_case Hk.
+  - intros Hc c k Hk. pose proof (inv_closed_nowait _ I Hc) as P. app_case Hk.
+  - exact (inv_gen_pos _ I).
+  - intros c k Hk. pose proof (inv_gen _ I) as P. pose proof (inv_gen_pos _ I Hst) as Q.
+    app_case Hk. lia.
+  - intros c k Hk Hs. pose proof (inv_live_run _ I) as P. app_case Hk. left; reflexivity.
+  - exact (inv_drain_old _ I).
+  - intros g Hg. change (run_ended g (v_conns s ++ [new_conn s o se r h]) = false).
+    rewrite run_ended_app, (inv_drain_live _ I g Hg). reflexivity.
+  - exact (inv_no_overlap _ I).
+  - exact (inv_raised _ I).
+Qed.
+
+(** a fresh run after the previous task has completed (or the first run) *)
+Lemma Inv_start_plain s :
+  Inv s -> v_started s && negb (v_done s) = false -> Inv (start_run s false).
+Proof.
+  intros I Hsd.
+  assert (Hold : forall c k, nth_error (v_conns s) c = Some k -> k_session k = true ->
+                             k_gen k <> v_gen s).
+  { intros c k Hk Hs Hg. destruct (v_started s) eqn:Hst.
+    - cbn in Hsd. apply negb_false_iff in Hsd.
+      pose proof (live_session_not_done s c k I Hk Hs Hg). congruence.
+    - destruct (inv_nostart _ I Hst) as (_ & _ & _ & Hc & _). rewrite Hc in Hk.
+      destruct c; discriminate. }
+  constructor; cbn.
+  - intros H; discriminate.
+  - intros _ _. split; reflexivity.
+  - intros H; discriminate.
+  - intros H; discriminate.
+  - intros H; discriminate.
+  - intros H; discriminate.
+  - intros _ Hk _ _. unfold is_unix. rewrite Hk. reflexivity.
+  - intros Hk. unfold is_unix. rewrite Hk. reflexivity.
+  - exact (inv_session_client _ I).
+  - exact (inv_waiting_session _ I).
+  - exact (inv_closed_nowait _ I).
+  - intros _. lia.
+  - intros c k Hk. pose proof (inv_gen _ I c k Hk). lia.
+  - intros c k Hk Hs. destruct (inv_live_run _ I c k Hk Hs) as [Hg|Hg]; [|right; exact Hg].
+    exfalso. exact (Hold c k Hk Hs Hg).
+  - intros g Hg. pose proof (inv_drain_old _ I g Hg). lia.
+  - exact (inv_drain_live _ I).
+  - rewrite orb_false_r. intros Ho. destruct (inv_no_overlap _ I Ho) as [He _]. auto.
+  - intros H; discriminate.
+Qed.
+
+(** a fresh run while the previous, cancelled task still waits for its lingering clients *)
+Lemma Inv_start_overlap s :
+  Inv s -> v_stopreq s = true -> v_done s = false -> Inv (start_run s true).
+Proof.
+  intros I Hs Hd.
+  assert (Hlive : run_ended (v_gen s) (v_conns s) = false).
+  { destruct (run_ended (v_gen s) (v_conns s)) eqn:E; [|reflexivity].
+    apply (inv_done_iff _ I Hs) in E. congruence. }
+  constructor; cbn.
+  - intros H; discriminate.
+  - intros _ _. split; reflexivity.
+  - intros H; discriminate.
+  - intros H; discriminate.
+  - intros H; discriminate.
+  - intros H; discriminate.
+  - rewrite orb_true_r. intros H; discriminate.
+  - intros Hk. unfold is_unix. rewrite Hk. reflexivity.
+  - exact (inv_session_client _ I).
+  - exact (inv_waiting_session _ I).
+  - exact (inv_closed_nowait _ I).
+  - intros _. lia.
+  - intros c k Hk. pose proof (inv_gen _ I c k Hk). lia.
+  - intros c k Hk Hse. right. apply in_or_app.
+    destruct (inv_live_run _ I c k Hk Hse) as [Hg|Hg]; [right; left; auto|left; exact Hg].
+  - intros g Hg. apply in_app_or in Hg. destruct Hg as [Hg|[<-|[]]].
+    + pose proof (inv_drain_old _ I g Hg). lia.
+    + destruct (inv_stopped _ I Hs) as [_ Hst]. pose proof (inv_gen_pos _ I Hst). lia.
+  - intros g Hg. apply in_app_or in Hg. destruct Hg as [Hg|[<-|[]]].
+    + exact (inv_drain_live _ I g Hg).
+    + exact Hlive.
+  - rewrite orb_true_r. intros H; discriminate.
+  - intros H; discriminate.
+Qed.
+
+(** the line of a client with a live session is answered *)
+Lemma Inv_answer s c k :
+  Inv s -> nth_error (v_conns s) c = Some k -> k_session k = true -> Inv (answer s c k).
+Proof.
+  intros I Hk Hse. unfold answer. apply Inv_settle.
+  apply (WInv_evolve s); try reflexivity; [exact I|].
+  unfold set_conns; cbn. eapply evolves_upd; [|exact Hk|].
+  - intros n x Hx. exact (conn_evolves_refl s n x I Hx).
+  - repeat split; cbn; auto; intros; discriminate.
+Qed.
+
+(** a client goes: its session ends, or stays (inside a waiting command: w = true) *)
+Lemma Inv_gone s c k w :
+  Inv s -> nth_error (v_conns s) c = Some k -> (w = true -> k_waiting k = true) ->
+  Inv (settle (set_conns s (upd (v_conns s) c
+         {| k_client_open := false; k_session := w; k_replies := k_replies k;
+            k_hello := k_hello k; k_waiting := w; k_gen := k_gen k |}))).
+Proof.
+  intros I Hk Hw. apply Inv_settle.
+  apply (WInv_evolve s); try reflexivity; [exact I|].
+  unfold set_conns; cbn. eapply evolves_upd; [|exact Hk|].
+  - intros n x Hx. exact (conn_evolves_refl s n x I Hx).
+  - repeat split; cbn; auto.
+    + intros H. exact (inv_waiting_session _ I c k Hk (Hw H)).
+    + intros H H'. congruence.
+    + intros Hc. destruct w; [|reflexivity].
+      rewrite (inv_closed_nowait _ I Hc c k Hk) in Hw. symmetry. auto.
+Qed.
+
 Lemma Inv_step s l : Inv s -> Inv (step s l).
 Proof.
   intros I.
-  destruct l as [| | | |c|c|c|c|c|]; cbn [step].
+  destruct l as [| | | |c|c|c|c|c| |]; cbn [step].
   - (* LStart *)
-    dcase (v_started s && negb (v_done s)) Hst; [exact I|].
-    pose proof I as [I1 I2 I3 I4 I5 I6 I7 I8 I9 I10].
-    constructor; cbn; intros; auto; try discriminate; try congruence.
-    + destruct (v_kind s); [discriminate|reflexivity].
-    + rewrite H. reflexivity.
-    + eapply I9; eauto.
-    + eapply I10; eauto.
+    dcase (v_started s && negb (v_done s)) Hsd.
+    + dcase (v_stopreq s) Hs; [|exact I].
+      apply andb_true_iff in Hsd. destruct Hsd as [_ Hd]. apply negb_true_iff in Hd.
+      apply Inv_start_overlap; assumption.
+    + apply Inv_start_plain; assumption.
   - (* LConnect *)
-    dcase (v_listening s) Hl; pose proof I as [I1 I2 I3 I4 I5 I6 I7 I8 I9 I10].
-    + assert (Hns : v_stopreq s = false)
-        by (destruct (v_stopreq s) eqn:E; auto; destruct (I3 eq_refl); congruence).
-      assert (Hst : v_started s = true)
-        by (destruct (v_started s) eqn:E; auto; destruct (I1 eq_refl); congruence).
-      destruct (I2 Hst Hns) as [_ Hd].
-      constructor; unfold set_conns; cbn; intros; auto; try congruence.
-      all: app_case H.
-    + constructor; cbn; intros; eauto.
-      * destruct (I1 H) as [_ [? [? ?]]]; auto.
-      * destruct (I2 H H0) as [Hx _]; congruence.
-      * destruct (I3 H) as [_ ?]; auto.
+    dcase (accepting s) Ha; [|apply Inv_refuse; exact I].
+    apply Inv_accept; auto.
   - (* LConnectBad *)
-    dcase (v_listening s) Hl; pose proof I as [I1 I2 I3 I4 I5 I6 I7 I8 I9 I10].
-    + assert (Hns : v_stopreq s = false)
-        by (destruct (v_stopreq s) eqn:E; auto; destruct (I3 eq_refl); congruence).
-      assert (Hst : v_started s = true)
-        by (destruct (v_started s) eqn:E; auto; destruct (I1 eq_refl); congruence).
-      destruct (I2 Hst Hns) as [_ Hd].
-      constructor; unfold set_conns; cbn; intros; auto; try congruence.
-      all: app_case H.
-    + constructor; cbn; intros; eauto.
-      * destruct (I1 H) as [_ [? [? ?]]]; auto.
-      * destruct (I2 H H0) as [Hx _]; congruence.
-      * destruct (I3 H) as [_ ?]; auto.
+    dcase (accepting s) Ha; [|apply Inv_refuse; exact I].
+    apply Inv_accept; auto.
   - (* LOpen *)
-    dcase (v_listening s) Hl; pose proof I as [I1 I2 I3 I4 I5 I6 I7 I8 I9 I10].
-    + assert (Hns : v_stopreq s = false)
-        by (destruct (v_stopreq s) eqn:E; auto; destruct (I3 eq_refl); congruence).
-      assert (Hst : v_started s = true)
-        by (destruct (v_started s) eqn:E; auto; destruct (I1 eq_refl); congruence).
-      destruct (I2 Hst Hns) as [_ Hd].
-      constructor; unfold set_conns; cbn; intros; auto; try congruence.
-      all: app_case H.
-    + constructor; cbn; intros; eauto.
-      * destruct (I1 H) as [_ [? [? ?]]]; auto.
-      * destruct (I2 H H0) as [Hx _]; congruence.
-      * destruct (I3 H) as [_ ?]; auto.
+    dcase (accepting s) Ha; [|apply Inv_refuse; exact I].
+    apply Inv_accept; auto.
   - (* LHello *)
     destruct (nth_error (v_conns s) c) as [k|] eqn:Hk; [|exact I].
     dcase (k_client_open k && k_session k && negb (k_hello k)) Hopen; [|exact I].
-    pose proof I as [I1 I2 I3 I4 I5 I6 I7 I8 I9 I10].
     apply andb_true_iff in Hopen. destruct Hopen as [Hopen _].
     apply andb_true_iff in Hopen. destruct Hopen as [Ho Hse].
-    assert (Hnd : v_done s = false) by (eapply live_session_not_done; eauto).
-    apply Inv_settle; unfold set_conns; cbn; intros; auto; try congruence.
-    + destruct (I1 H) as [_ [_ [_ Hc]]]. rewrite Hc in Hk. destruct c; discriminate.
-    + upd_case H.
-    + upd_case H.
+    apply Inv_answer; assumption.
   - (* LSend *)
     destruct (nth_error (v_conns s) c) as [k|] eqn:Hk; [|exact I].
     dcase (k_client_open k && k_session k && k_hello k && negb (k_waiting k)) Hopen; [|exact I].
-    pose proof I as [I1 I2 I3 I4 I5 I6 I7 I8 I9 I10].
     apply andb_true_iff in Hopen. destruct Hopen as [Hopen _].
     apply andb_true_iff in Hopen. destruct Hopen as [Hopen _].
     apply andb_true_iff in Hopen. destruct Hopen as [Ho Hse].
-    assert (Hnd : v_done s = false) by (eapply live_session_not_done; eauto).
-    apply Inv_settle; unfold set_conns; cbn; intros; auto; try congruence.
-    + destruct (I1 H) as [_ [_ [_ Hc]]]. rewrite Hc in Hk. destruct c; discriminate.
-    + upd_case H.
-    + upd_case H.
-  - (* LSendWait: the session enters a waiting command; nothing else changes *)
+    apply Inv_answer; assumption.
+  - (* LSendWait *)
     destruct (nth_error (v_conns s) c) as [k|] eqn:Hk; [|exact I].
     dcase (k_client_open k && k_session k && k_hello k && negb (k_waiting k)) Hopen; [|exact I].
-    pose proof I as [I1 I2 I3 I4 I5 I6 I7 I8 I9 I10].
     apply andb_true_iff in Hopen. destruct Hopen as [Hopen _].
     apply andb_true_iff in Hopen. destruct Hopen as [Hopen _].
     apply andb_true_iff in Hopen. destruct Hopen as [Ho Hse].
-    assert (Hnd : v_done s = false) by (eapply live_session_not_done; eauto).
-    constructor; unfold set_conns; cbn; intros; auto; try congruence.
-    + destruct (I1 H) as [Ha [Hb [Hc Hd]]]. rewrite Hd in Hk. destruct c; discriminate.
-    + (* done <-> all ended: done is false, and the updated connection still has a session *)
-      split; [congruence|]. intros Ha. exfalso.
-      unfold all_sessions_ended in Ha. rewrite forallb_forall in Ha.
-      assert (Hin : In {| k_client_open := true; k_session := true; k_replies := k_replies k;
-                          k_hello := true; k_waiting := true |} (upd (v_conns s) c
-                       {| k_client_open := true; k_session := true; k_replies := k_replies k;
-                          k_hello := true; k_waiting := true |})).
-      { eapply nth_error_In with (n := c). rewrite nth_error_upd, Nat.eqb_refl.
-        assert (Hlt : c < length (v_conns s)) by (apply nth_error_Some; congruence).
-        apply Nat.ltb_lt in Hlt. rewrite Hlt. reflexivity. }
-      apply Ha in Hin. cbn in Hin. discriminate.
-    + upd_case H.
-    + upd_case H.
+    dcase (v_pool_closed s) Hpc; [apply Inv_answer; assumption|].
+    (* the session enters a waiting command; no run ends, nothing else changes *)
+    set (k' := {| k_client_open := true; k_session := true; k_replies := k_replies k;
+                  k_hello := true; k_waiting := true; k_gen := k_gen k |}).
+    assert (Hsame : forall g, run_ended g (upd (v_conns s) c k') = run_ended g (v_conns s)).
+    { intros g. destruct (run_ended g (v_conns s)) eqn:E.
+      - apply run_ended_no_live. intros n x Hx Hs.
+        rewrite nth_error_upd in Hx. destruct (Nat.eqb n c) eqn:En.
+        + apply Nat.eqb_eq in En. subst n. rewrite Nat.eqb_refl in Hx.
+          destruct (Nat.ltb c (length (v_conns s))); [|discriminate]. injection Hx as <-.
+          cbn. exact (run_ended_nth _ g c k E Hk Hse).
+        + rewrite Nat.eqb_sym, En in Hx. exact (run_ended_nth _ g n x E Hx Hs).
+      - assert (Hlt : c < length (v_conns s)) by (apply nth_error_Some; congruence).
+        apply Nat.ltb_lt in Hlt.
+        destruct (Nat.eq_dec (k_gen k) g) as [Hg|Hg].
+        + apply (run_ended_live _ c k' g); [|reflexivity|exact Hg].
+          rewrite nth_error_upd, Nat.eqb_refl, Hlt. reflexivity.
+        + (* another live session of run g *)
+          apply Bool.not_true_is_false. intros E'. apply Bool.not_true_iff_false in E.
+          apply E. apply run_ended_no_live. intros n x Hx Hs Hxg.
+          destruct (Nat.eqb c n) eqn:En.
+          * apply Nat.eqb_eq in En. subst n. congruence.
+          * apply (run_ended_nth _ g n x E'); [|exact Hs|exact Hxg].
+            rewrite nth_error_upd, En. exact Hx. }
+    apply Inv_of_WInv.
+    + apply (WInv_evolve s); try reflexivity; [exact I|].
+      unfold set_conns; cbn. rewrite Hpc. eapply evolves_upd; [|exact Hk|].
+      * intros n x Hx. rewrite <- Hpc. exact (conn_evolves_refl s n x I Hx).
+      * repeat split; cbn; auto; intros; discriminate.
+    + unfold set_conns; cbn [v_conns v_drain]. intros g Hg. rewrite Hsame.
+      exact (inv_drain_live _ I g Hg).
+    + unfold set_conns; cbn [v_conns v_gen v_stopreq v_done]. rewrite Hsame. intros Hs.
+      apply (inv_done_iff _ I Hs).
   - (* LLeave *)
     destruct (nth_error (v_conns s) c) as [k|] eqn:Hk; [|exact I].
-    dcase (k_client_open k) Ho; [|exact I]. pose proof I as [I1 I2 I3 I4 I5 I6 I7 I8 I9 I10].
-    apply Inv_settle; unfold set_conns; cbn; intros; auto.
-    + destruct (I1 H) as [_ [_ [_ Hc]]]. rewrite Hc in Hk. destruct c; discriminate.
-    + split; [apply I5; exact H|].
-      pose proof (I5 H) as Hs. apply (I4 Hs) in H. unfold all_sessions_ended in *.
-      rewrite forallb_forall in *. intros x Hx. apply In_nth_error in Hx. destruct Hx as [n Hn].
-      rewrite nth_error_upd in Hn. destruct (Nat.eqb c n).
-      * destruct (Nat.ltb c (length (v_conns s))); [|discriminate]. injection Hn as <-. cbn.
-        (* the old connection had no session (all had ended), hence was not waiting *)
-        pose proof (H k (nth_error_In _ _ Hk)) as Hk'. apply negb_true_iff in Hk'.
-        destruct (k_waiting k) eqn:Hw; [|reflexivity].
-        rewrite (I10 c k Hk Hw) in Hk'. discriminate.
-      * apply H. eapply nth_error_In; eauto.
-    + upd_case H.
-    + upd_case H.
+    dcase (k_client_open k) Ho; [|exact I].
+    apply Inv_gone; auto.
   - (* LAbort *)
     destruct (nth_error (v_conns s) c) as [k|] eqn:Hk; [|exact I].
-    dcase (k_client_open k) Ho; [|exact I]. pose proof I as [I1 I2 I3 I4 I5 I6 I7 I8 I9 I10].
-    apply Inv_settle; unfold set_conns; cbn; intros; auto.
-    + destruct (I1 H) as [_ [_ [_ Hc]]]. rewrite Hc in Hk. destruct c; discriminate.
-    + split; [apply I5; exact H|].
-      pose proof (I5 H) as Hs. apply (I4 Hs) in H. unfold all_sessions_ended in *.
-      rewrite forallb_forall in *. intros x Hx. apply In_nth_error in Hx. destruct Hx as [n Hn].
-      rewrite nth_error_upd in Hn. destruct (Nat.eqb c n).
-      * destruct (Nat.ltb c (length (v_conns s))); [|discriminate]. injection Hn as <-. cbn.
-        destruct (v_kind s); [reflexivity|].
-        pose proof (H k (nth_error_In _ _ Hk)) as Hk'. apply negb_true_iff in Hk'.
-        destruct (k_waiting k) eqn:Hw; [|reflexivity].
-        rewrite (I10 c k Hk Hw) in Hk'. discriminate.
-      * apply H. eapply nth_error_In; eauto.
-    + rewrite nth_error_upd in H.
-      destruct (Nat.eqb c c0); [|eauto].
-      destruct (Nat.ltb c (length (v_conns s))); [|discriminate]. injection H as <-.
-      cbn in *. destruct (v_kind s); congruence.
-    + rewrite nth_error_upd in H.
-      destruct (Nat.eqb c c0); [|eauto].
-      destruct (Nat.ltb c (length (v_conns s))); [|discriminate]. injection H as <-.
-      cbn in *. destruct (v_kind s); congruence.
+    dcase (k_client_open k) Ho; [|exact I].
+    apply Inv_gone; auto. destruct (v_kind s); [intros; discriminate|auto].
   - (* LStop *)
-    dcase (v_started s && negb (v_stopreq s)) E; [|exact I]. pose proof I as [I1 I2 I3 I4 I5 I6 I7 I8 I9 I10].
+    dcase (v_started s && negb (v_stopreq s)) E; [|exact I].
     apply andb_true_iff in E. destruct E as [Hst Hns]. apply negb_true_iff in Hns.
-    destruct (I2 Hst Hns) as [Hl Hd].
-    apply Inv_settle; cbn; intros; auto; try discriminate; try congruence.
-    + eapply I9; eauto.
-    + eapply I10; eauto.
+    destruct (inv_serving _ I Hst Hns) as [Hl Hd].
+    apply Inv_settle. constructor; cbn.
+    + intros H; discriminate.
+    + intros _ H; discriminate.
+    + intros _. split; reflexivity.
+    + intros H; discriminate.
+    + intros H; discriminate.
+    + intros Ho Hk _ _. exact (inv_sock_there _ I Ho Hk Hst Hd).
+    + exact (inv_sock_tcp _ I).
+    + exact (inv_session_client _ I).
+    + exact (inv_waiting_session _ I).
+    + exact (inv_closed_nowait _ I).
+    + intros _. exact (inv_gen_pos _ I Hst).
+    + exact (inv_gen _ I).
+    + exact (inv_live_run _ I).
+    + exact (inv_drain_old _ I).
+    + exact (inv_no_overlap _ I).
+    + intros H. destruct (inv_raised _ I H) as [_ H']. congruence.
+  - (* LClosePool *)
+    apply Inv_settle. apply (WInv_evolve s); try reflexivity; [exact I|].
+    cbn. apply evolves_map. intros n x Hx.
+    destruct (k_waiting x) eqn:Hw.
+    + pose proof (inv_waiting_session _ I n x Hx Hw) as Hs.
+      destruct (k_client_open x) eqn:Ho; repeat split; cbn; auto; intros; discriminate.
+    + destruct (conn_evolves_refl s n x I Hx) as (H1 & H2 & H3 & H4 & _).
+      repeat split; auto.
 Qed.
 
 Theorem Inv_run k tr : Inv (run k tr).
@@ -265,4 +767,22 @@ Proof.
   unfold run. generalize (Inv_init k). generalize (init k).
   induction tr as [|l t IH]; intros s I; cbn [fold_left]; auto.
   apply IH. apply Inv_step. exact I.
+Qed.
+
+(** * the transport never changes *)
+
+Lemma step_kind s l : v_kind (step s l) = v_kind s.
+Proof.
+  destruct l as [| | | |c|c|c|c|c| |]; cbn [step]; unfold answer;
+    repeat match goal with
+    | |- v_kind (settle _) = _ => rewrite settle_kind
+    | |- v_kind (match ?x with _ => _ end) = _ => destruct x
+    end; reflexivity.
+Qed.
+
+Lemma run_kind k tr : v_kind (run k tr) = k.
+Proof.
+  unfold run. change k with (v_kind (init k)) at 2. generalize (init k).
+  induction tr as [|l t IH]; intros s; cbn [fold_left]; [reflexivity|].
+  rewrite IH. apply step_kind.
 Qed.
